@@ -14,7 +14,7 @@
 (* of the operation in flight) and resumes after the next Reset, so one    *)
 (* run reports every scenario the specification rejects.                   *)
 (***************************************************************************)
-EXTENDS Naturals, Sequences, FiniteSets, TLC, Json, IOUtils, Versions
+EXTENDS Naturals, Sequences, FiniteSets, TLC, Json, IOUtils, Versions, Rng
 
 Rec == ndJsonDeserialize(IOEnv.TRACE)
 N == Len(Rec)
@@ -50,7 +50,7 @@ TPair == IsEvent("Pair") /\ I!LearnPair(E.sk, E.pk) /\ UNCHANGED texts
 
 \* ---- sealing ------------------------------------------------------------
 TSealCall == IsEvent("SealCall") /\ I!SealBegin(E.ver, E.purpose, E.key, E.claims, E.footer, E.aad) /\ UNCHANGED texts
-TDraw == IsEvent("Draw") /\ I!Draw(E.ok) /\ UNCHANGED texts
+TDraw == IsEvent("Draw") /\ I!Draw(E.ok, E.val) /\ UNCHANGED texts
 TFooterEncode == IsEvent("FooterEncode") /\ I!EncodeFooter(E.ok) /\ UNCHANGED texts
 TClaimsEncode == IsEvent("ClaimsEncode") /\ I!EncodeClaims(E.ok) /\ UNCHANGED texts
 TSealRet ==
@@ -58,6 +58,7 @@ TSealRet ==
   /\ IF E.ok THEN /\ I!Emit(E.wire, SetOf(E.fresh))
                   /\ E.footer = op.footer                                   \* the token carries the footer it was given
                   /\ E.len = TokenPayloadLen(op.ver, op.purpose, E.clen)     \* and has the prescribed length
+                  /\ EmbedOK("seal", op.ver, op.purpose, op.drawn, SetOf(E.fresh))   \* the drawn randomness is what it embeds (C16)
              ELSE I!SealFail(E.errc)
   /\ UNCHANGED texts
 
@@ -93,6 +94,7 @@ TWrapRet ==
   /\ IsEvent("WrapRet")
   /\ IF E.ok THEN /\ I!WrapEmit(E.blob, SetOf(E.fresh))
                   /\ E.len = BlobLen(op.wkind, op.ver, E.klen)               \* fixed length per format (C05)
+                  /\ EmbedOK("wrap", op.ver, op.wkind, op.drawn, SetOf(E.fresh))
              ELSE I!WrapFail(E.errc)
   /\ UNCHANGED texts
 TUnwrap ==
@@ -100,7 +102,15 @@ TUnwrap ==
   /\ I!Unwrap(E.wkind, E.ver, E.ktype, E.blob, E.with, E.ok, E.key, E.errc)
   /\ UNCHANGED texts
 
+\* ---- key generation --------------------------------------------------------
+TGenCall == IsEvent("KeyGenCall") /\ I!GenBegin(E.ver, E.kind) /\ UNCHANGED texts
+TGenRet ==
+  /\ IsEvent("KeyGenRet")
+  /\ IF E.ok THEN I!GenEmit(E.key) ELSE I!GenFail(E.errc)
+  /\ UNCHANGED texts
+
 Matched ==
+  \/ TGenCall \/ TGenRet
   \/ TReset \/ TNote \/ TPair
   \/ TSealCall \/ TDraw \/ TFooterEncode \/ TClaimsEncode \/ TSealRet
   \/ TToString \/ TParseRet
@@ -113,7 +123,7 @@ NextReset(k) == IF \E j \in k..N : Rec[j].ev = "Reset"
                 ELSE N + 1
 
 OpSummary == IF op.kind = "unseal" THEN <<"unseal", op.auth, op.decoded, op.validated>>
-             ELSE IF op.kind = "seal" THEN <<"seal", op.failed, op.rngFailed>>
+             ELSE IF op.kind \in {"seal", "wrap", "gen"} THEN <<op.kind, op.failed, op.rngFailed>>
              ELSE <<op.kind>>
 
 \* the specification has no behaviour that continues with this event
